@@ -130,7 +130,7 @@ func c14() []*Ob {
 				} else {
 					c.Violation("pair:units:from-to", u.Pos(), "from/to are not written (UnixMilli x%d) and read (time.UnixMilli x%d) in the same unit", mMs, uMs)
 				}
-				wrSec := len(CallsIn(m, Callee("(time.Duration).Seconds"))) > 0
+				wrSec := Current.HasCall(m, Callee("(time.Duration).Seconds"))
 				rdSec := false
 				for _, b := range u.Blocks {
 					for _, in := range b.Instrs {
@@ -150,8 +150,8 @@ func c14() []*Ob {
 					c.Violation("pair:units:bucket", u.Pos(), "the bucket width is not written (Seconds(): %v) and read (time.Second*: %v) in the same unit: restored occupancy maps would map timestamps to the wrong bits", wrSec, rdSec)
 				}
 				for _, f := range []string{"From", "To", "Bucket", "Bitmask"} {
-					wrote := len(InstrsIn(m, FieldStore("seq.midsDistributionJSON", f))) > 0
-					read := len(InstrsIn(u, FieldLoad("seq.midsDistributionJSON", f))) > 0
+					wrote := Current.Has(m, FieldStore("seq.midsDistributionJSON", f))
+					read := Current.Has(u, FieldLoad("seq.midsDistributionJSON", f))
 					if wrote && read {
 						c.Site(m.Pos(), "JSON field %s is written and read", f)
 					} else {
@@ -242,7 +242,7 @@ func c14() []*Ob {
 					if fn == nil {
 						continue
 					}
-					if len(CallsIn(fn, mi)) > 0 {
+					if Current.HasCall(fn, mi) {
 						c.Site(fn.Pos(), "%s maps timestamps with midToIndex", name)
 					} else {
 						c.Violation("sibling:midToIndex:"+name, fn.Pos(), "%s no longer maps timestamps with midToIndex: set bits and tested bits would use different bucket borders", name)
